@@ -64,6 +64,108 @@ def pad_bounds(F):
                 yield sw, n, str(e)
 
 
+def let_polys(F, E, fn, names):
+    """polynomials of the named `let` bindings of a function (lets evaluated in order, nested blocks inherit the environment)"""
+    from . import poly
+    out = {}
+
+    def rec(b, env):
+        if isinstance(b, list):
+            for x in b:
+                rec(x, env)
+            return
+        if not isinstance(b, dict):
+            return
+        if b.get('k') == 'Block':
+            env = dict(env)
+            for s in b['st']:
+                if s.get('k') == 'Let' and 'i' in s and s['p'].get('k') == 'Bind':
+                    try:
+                        env[s['p']['id']] = E.ev(fn, s['i'], env, 3)
+                    except poly.Unknown as ex:
+                        env[s['p']['id']] = ex
+                    if s['p']['n'] in names:
+                        out.setdefault(s['p']['n'], []).append((env[s['p']['id']], s.get('s')))
+                rec(s, env)
+            if 'e' in b:
+                rec(b['e'], env)
+            return
+        for v in b.values():
+            if isinstance(v, (dict, list)):
+                rec(v, env)
+    rec(fn.body, {})
+    return out
+
+
+def lut_row_layout(F, ck):
+    """R08.11: the circuit builder lays a table out over ceil(len / slots) rows counted upwards from `last_lut_row`; the generator
+    that fills those rows finds the first (highest) row from the same quantities. Both are normalised to polynomials; the
+    generator's  first_row - last_lut_row + 1  must be the same ceiling division as the builder's row count."""
+    from . import poly
+    import re
+    ck.rule('R08.11', 'the lookup-table generator locates the first table row with the same ceiling division (entries per row) that the builder used to allocate the rows: first_row - last_lut_row + 1 == number of rows, as normalised polynomials')
+    g = [f for f in F.find('LookupTableGenerator::run_once', crate='plonky2') if f.body is not None]
+    b = [f for f in F.find('CircuitBuilder::add_all_lookups', crate='plonky2') if f.body is not None]
+    if len(g) != 1 or len(b) != 1:
+        ck.ob('R08.11', 'anchor', False, 'ANCHOR-MISSING LookupTableGenerator::run_once / CircuitBuilder::add_all_lookups')
+        return
+    E = poly.Ev(F)
+    gp = let_polys(F, E, g[0], {'slot'})
+    # the generator: slot = (first_row - self.row) * num_slots + slot_nb ; take the polynomial of the slot index itself, which is what
+    # indexes the table, so that the rule does not depend on the name of an intermediate local
+    rows = [x for x in walk(b[0].body) if x.get('k') == 'For' and x['it'].get('k') == 'Struct' and x['it'].get('d', '').endswith('Range')
+            and any(y.get('k') == 'MCall' and y.get('n') == 'add_gate' for y in walk(x['b']))]
+    # builder: the bound of the loop that adds LookupTableGate rows
+    bvals = []
+    allb = let_polys(F, E, b[0], _AllNames())
+    byid = {}
+    for nm, lst in allb.items():
+        for v, loc in lst:
+            byid.setdefault(nm, []).append(v)
+    for x in rows:
+        end = dict(x['it']['f']).get('end')
+        if 'LookupTableGate' not in str(x['b']):
+            continue
+        if end.get('k') == 'Local' and end.get('n') in byid:
+            v = byid[end['n']][-1]
+            if not isinstance(v, Exception):
+                bvals.append((v, x.get('s')))
+    if not gp.get('slot') or isinstance(gp['slot'][0][0], Exception) or not bvals:
+        ck.ob('R08.11', 'lut.rows', False, 'ANCHOR-MISSING: could not normalise the generator slot index (%s) or the builder row count (%d loops)' % (gp.get('slot'), len(bvals)), g[0].loc() if hasattr(g[0], 'loc') else None)
+        return
+    slot, sloc = gp['slot'][0]
+    rowsb, bloc = bvals[0]
+    # slot = (last + R - 1 - row) * S + slot_nb  with  R the row count: the coefficient structure is read off by substitution:
+    # remove the known terms and what is left must be  S * R  with R a single div_ceil symbol
+    txt = poly.show(slot)
+    m = re.findall(r'div_ceil\(([^()]*(?:\([^()]*\)[^()]*)*), ([^()]*(?:\([^()]*\)[^()]*)*)\)', txt)
+    mb = re.fullmatch(r'div_ceil\((.*), (.*)\)', poly.show(rowsb))
+    ok = False
+    why = ''
+    if mb is None:
+        why = 'the builder allocates %s table rows, which is not a ceiling division of the table length by the slots per row' % poly.show(rowsb)
+    else:
+        S = poly.sym('LookupTableGenerator.num_slots')
+        cands = set(m)
+        want = None
+        for L, Sx in cands:
+            R = poly.sym('div_ceil(%s, %s)' % (L, Sx))
+            expect = poly.add(poly.mul(S, poly.add(poly.add(poly.add(poly.sym('LookupTableGenerator.last_lut_row'), R), poly.const(1), -1), poly.sym('LookupTableGenerator.row'), -1)), poly.sym('LookupTableGenerator.slot_nb'))
+            if expect == slot and 'lut' in L and Sx == 'LookupTableGenerator.num_slots':
+                want = (L, Sx)
+        ok = want is not None
+        if not ok:
+            why = ('LUT ROW LAYOUT: the builder allocates %s rows for a table (counted upwards from last_lut_row), but the generator indexes the table with slot = %s, '
+                   'which is not (last_lut_row + ceil(len(lut) / num_slots) - 1 - row) * num_slots + slot_nb: for table lengths that are not a multiple of the slots per row '
+                   '(or are one) the rows are filled with other entries than the ones the lookup argument sums, and an honest proof does not verify' % (poly.show(rowsb), txt))
+    ck.ob('R08.11', 'lut.rows', ok, 'generator slot index = (last_lut_row + ceil(len/slots) - 1 - row) * slots + slot_nb; builder rows = %s' % poly.show(rowsb) if ok else why, sloc)
+
+
+class _AllNames:
+    def __contains__(self, x):
+        return True
+
+
 def run(F, ck, tier):
     E = ob.Engine(F, ck)
     for r, t in (('R08.1', 'three evaluators: same skeleton of selector-filtered pushes'), ('R08.2', 'selector exhaustiveness'), ('R08.5', 'lookup gate wires consumed'),
@@ -269,6 +371,7 @@ def run(F, ck, tier):
             loc10 = gets[0].get('s')
             break
         ck.ob('R08.10', 'multiplicity.key', okk, why10, loc10)
+    lut_row_layout(F, ck)
     # R08.4 integer parameters of the argument agree between the three evaluators
     ck.rule('R08.4', 'the three lookup evaluators derive the same integer parameters (slots per row, degrees, number of partial polynomials, table chunk size) - compared as normalised polynomials, local names and len() receivers abstracted')
     from . import poly as _poly
